@@ -98,6 +98,81 @@ def oracle(chk, world, r, case):
                     chk.failure("parser %d received %s, first required dependency holds %s" % (cid, invoked.get(cid), cv(req[0])), case)
 
 
+def derive_stream(chk, n):
+    """
+    ComponentType.__init__ glue: class-level requires / optional of a component type, positional arguments,
+    the deprecated requires= keyword, optional= as a single component or a list — the delegate's requires,
+    at_least_one and deps (argument order) vs IV.Dr.derive.
+    """
+    rng = chk.rng
+    base = []
+    for i in range(8):                       # a pool of real components to depend on
+        def f():
+            return None
+        f.__name__ = "dv%d" % i
+        base.append(plugins.component()(f))
+    ids = dict((c, i) for i, c in enumerate(base))
+
+    def items(k):
+        out = []
+        for _ in range(k):
+            if rng.random() < 0.3:
+                out.append(("g", [rng.randrange(8) for _ in range(rng.randint(1, 3))]))
+            else:
+                out.append(("o", rng.randrange(8)))
+        return out
+
+    def real(its):
+        return [base[x[1]] if x[0] == "o" else [base[c] for c in x[1]] for x in its]
+
+    def enc_items(its):
+        return ";".join(("o%d" % x[1]) if x[0] == "o" else ("g" + ",".join(map(str, x[1]))) for x in its) or "-"
+    kinds = [("plain", W.vplain), ("plugin", plugins.component), ("plugin", plugins.combiner), ("rule", plugins.rule),
+             ("datasource", plugins.datasource), ("parser1", plugins.parser)]
+    lines, impl, cases = [], [], []
+    for i in range(n):
+        kname, ktype = rng.choice(kinds)
+        cls_req, cls_opt = items(rng.choice([0, 0, 1, 2])), [rng.randrange(8) for _ in range(rng.choice([0, 0, 1, 2]))]
+        pos, kw_req = items(rng.choice([0, 1, 2, 3])), items(rng.choice([0, 0, 1, 2]))
+        if kname == "parser1" and not (cls_req or pos):
+            pos = [("o", rng.randrange(8))]
+        r = rng.random()
+        kw_opt = None if r < 0.4 else ("s", rng.randrange(8)) if r < 0.6 else ("m", [rng.randrange(8) for _ in range(rng.randint(0, 3))])
+        T = type("T%d" % i, (ktype,), {"requires": real(cls_req), "optional": [base[c] for c in cls_opt]})
+        kwargs = {}
+        if kw_req or rng.random() < 0.2:
+            kwargs["requires"] = real(kw_req)
+        if kw_opt is not None:
+            kwargs["optional"] = base[kw_opt[1]] if kw_opt[0] == "s" else [base[c] for c in kw_opt[1]]
+        if "requires" not in kwargs:
+            kw_req = []
+        try:
+            d = T(*real(pos), **kwargs)
+            got = "req=%s|alo=%s|deps=%s" % (",".join(str(ids[c]) for c in d.requires),
+                                             "&".join(";".join(str(ids[c]) for c in g) for g in d.at_least_one),
+                                             ",".join(str(ids[c]) for c in d.deps))
+        except Exception as ex:
+            got = "raised:%s" % type(ex).__name__
+        impl.append(got)
+        lines.append("derive\t%s\t%s\t%s\t%s\t%s\t%s" % (
+            kname, enc_items(cls_req), ",".join(map(str, cls_opt)) or "-", enc_items(pos), enc_items(kw_req),
+            "-" if kw_opt is None else ("s%d" % kw_opt[1]) if kw_opt[0] == "s" else "m" + ",".join(map(str, kw_opt[1]))))
+        case = {"op": "derive", "kind": kname, "cls_requires": cls_req, "cls_optional": cls_opt, "positional": pos,
+                "kw_requires": kw_req if "requires" in kwargs else None, "kw_optional": kw_opt}
+        cases.append(case)
+        chk.case(("derive", lines[-1]), bool(pos or kw_req or cls_req))
+        chk.count("derive:" + kname)
+        # oracle: declaration order = class-level requirements, then positional (else requires=), then optional ones
+        if not got.startswith("raised"):
+            eff = pos if pos else (kw_req if kname != "parser1" else [])
+            want = [c for x in cls_req + eff for c in ([x[1]] if x[0] == "o" else x[1])] + cls_opt
+            if kname != "parser1" and kw_opt is not None:
+                want += [kw_opt[1]] if kw_opt[0] == "s" else list(kw_opt[1])
+            if got.split("deps=")[1] != ",".join(map(str, want)):
+                chk.failure("decorator arguments %s bind in order %s, declaration order is %s" % (case, got.split("deps=")[1], want), case)
+    chk.compare("decorator-arguments-vs-derive", cases, impl, run_driver("Dr", lines))
+
+
 def run(chk):
     quick = chk.tier == "quick"
     n_worlds = 1200 if quick else 20000
@@ -138,7 +213,12 @@ def run(chk):
         chk.tie_broken("protocol", "driver rejected %d world lines" % len(bad), bad[:3])
     chk.compare("engine-vs-model", cases, impl, model)
     chk.sample({"case": cases[0], "impl": impl[0]})
+    derive_stream(chk, 1500 if quick else 20000)
 
 
 def replay(data):
+    if data["case"].get("op") == "derive":
+        print("decorator-argument case:", data["case"]); print(data.get("desc"))
+        print("re-run ./check C02 with VERIF_SEED=%s to reproduce" % data.get("seed"))
+        return 1
     return W.generic_replay(data, oracle)
